@@ -23,10 +23,13 @@ def make_cases(rng, tier, n):
                 p, fl = rng.choice(prev_out)
                 ins = c["stages"][k][1].setdefault("in", [])
                 ins.append((p, "d" if "d" in fl else ""))
+        commit_targets = []
+        if fam == "pipeline" and len(c["stages"]) >= 2 and rng.random() < 0.6:
+            commit_targets = [c["stages"][-1][0]]          # only the most downstream stage is named: upstream is committed recursively
         s_commit, s_checkout = rng.choice("lc"), rng.choice("lc")
         keep = [b"workdir", b"workdir/inner"] if c.get("cwd") else []
         variant = rng.choice(["clone", "clone", "rm", "move"])
-        ops = [("commit", s_commit, [])]
+        ops = [("commit", s_commit, commit_targets)]
         if rng.random() < 0.5:
             ops.append(("status", []))
         if variant == "clone":
